@@ -496,6 +496,16 @@ def scen_unary(ctx, model, kind):
         if probe is not None:
             pr = probe
         check_object(ctx, "conj", cls, cls, r, Ea.conj(), scale, rep, probe=pr)
+        # a scalar multiple of the conjugate taken in place: the conjugate becomes v * conj(a), the object it was made from
+        # keeps its value (the conjugate of REAL data may share its buffers with the original)
+        v2 = [2.5, -0.5, 3.0][int(rng.integers(3))]
+        rep2 = dict(base, op="conj-then-scale-in-place", value=v2)
+        r2, ok2 = guarded(ctx, "conj+scale-inplace", cls, lambda: r.scale(v2, inplace=True), rep2)
+        if ok2:
+            check_object(ctx, "conj+scale-inplace", cls, cls, r2 if r2 is not None else r, v2 * Ea.conj(), scale * abs(v2), rep2, probe=pr)
+            if nrm(lc.dense_state(x) - Ea) > RTOL * scale:
+                run.violation(f"conj+scale-inplace:{cls}:original-changed", rep2)
+            run.count("conj-then-scale-in-place")
 
     if kind == "mps" or kind == "mpdm":
         knd = ["mps_only", "mps_and_coeff", "mps_norm_to_coeff"][int(rng.integers(3))]
